@@ -1124,6 +1124,79 @@ fn sweep_rule_extreme_years(ctx: &Ctx) -> Tally {
     t
 }
 
+/// rule-only zones whose start and end instants coincide in at least half of the years of the cycle but not in all (the order
+/// of the two events of a tie year comes from other years): searched around both events in every year of the 400-year cycle
+fn sweep_tie_rules(ctx: &Ctx, tabs: &Tables, thorough: bool) -> Tally {
+    let days = crate::rule::tie_days(false, tabs);
+    let nd = days.len();
+    let idx: Vec<usize> = days.iter().map(|d| tabs.index_of(*d)).collect();
+    let t = (0..nd * nd)
+        .into_par_iter()
+        .map(|ij| {
+            let (i, j) = (ij / nd, ij % nd);
+            let mut tl = Tally::default();
+            let (ta, tb) = (&tabs.tabs[idx[i]], &tabs.tabs[idx[j]]);
+            let mut count = [0u32; 13];
+            for y in 2000..2400 {
+                let k = tb.get(y) - ta.get(y);
+                if (-6..=6).contains(&k) {
+                    count[(k + 6) as usize] += 1;
+                }
+            }
+            for kk in 0..13usize {
+                if count[kk] < 200 || count[kk] == 400 {
+                    continue;
+                }
+                let k = kk as i64 - 6;
+                let mut pats: Vec<(i64, i64)> = vec![(H + k.max(0) * D, H + (-k).max(0) * D)];
+                if k > 0 {
+                    pats.push((H, H - k * D));
+                } else if k < 0 {
+                    pats.push((H + k * D, H));
+                } else if thorough {
+                    pats.push((-H, -H));
+                }
+                for (us, ue) in pats {
+                    for o in [(0i64, H), (H, 0)] {
+                        let r = spec(days[i], days[j], us + o.0, ue + o.1, o);
+                        let res = guard(|| {
+                            let mut tl = Tally::default();
+                            let (ms, md) = (crate::rule::std_type(&r), crate::rule::dst_type(&r));
+                            if alt(&r, &ms, &md).is_err() {
+                                return tl;
+                            }
+                            let line = Arc::new(Timeline::from_tables(&r, tabs.tab(r.start), tabs.tab(r.end)));
+                            if !matches!(line.classify(), Class::StartFirst | Class::EndFirst) {
+                                return tl;
+                            }
+                            let z = rule_zone(&r, line.clone());
+                            let iz = ImplZone::from_model(&z).unwrap();
+                            let zr = iz.zref().unwrap();
+                            tl.zones += 1;
+                            for y in 2000..2400i64 {
+                                let (s, e) = (line.sy(y), line.ey(y));
+                                for l in [s + r.std_off - 1, s + r.std_off, s + r.dst_off, e + r.dst_off - 1, e + r.std_off, (s + e) / 2 + 40 * D + r.std_off] {
+                                    if let Some(f) = Fields::of_local(ctx.cyc, l, 0) {
+                                        check_search(ctx, &z, zr, &f, "tie_rules", &mut tl);
+                                    }
+                                }
+                            }
+                            tl
+                        });
+                        match res {
+                            Ok(t) => tl = tl.merge(t),
+                            Err(m) => ctx.rec.violation("tie_rules", json!({"kind":"rule_row","start":days[i].text(),"end":days[j].text()}), json!("no panic"), json!(m)),
+                        }
+                    }
+                }
+            }
+            tl
+        })
+        .reduce(Tally::default, Tally::merge);
+    ctx.rec.sub("tie_rules", t.json());
+    t
+}
+
 /// table + DST rule: the last table transition sits at delta from a rule transition
 fn sweep_junction(ctx: &Ctx, tabs: &Tables, thorough: bool) -> Tally {
     let cyc = ctx.cyc;
@@ -1369,6 +1442,10 @@ pub fn run_sweeps(ctx: &Ctx, tabs: &Tables, thorough: bool, light: bool) -> Tall
     total = total.merge(sweep_rule_only(ctx, tabs, if thorough { 120 } else if light { 6 } else { 30 }, false, "rule_only"));
     // 3b. non-interleaving accepted rules (keeps KF2 observable; any other failure mode is a violation)
     total = total.merge(sweep_rule_only(ctx, tabs, if thorough { 60 } else { 10 }, true, "rule_only_non_interleaving"));
+    // 3b'. rules with ties in most years, every year of the cycle
+    if !light && (thorough || prop != Prop::C17) {
+        total = total.merge(sweep_tie_rules(ctx, tabs, thorough));
+    }
     // 3c. first and last years of the rule arithmetic
     total = total.merge(sweep_rule_extreme_years(ctx));
     // 4. junction
